@@ -1520,11 +1520,11 @@ void run_case(vf::ctx_t& c)
     size_t threads = 1;
     if (threads_mode)
     {
-        threads = static_cast<size_t>(c.args.threads > 0 ? c.args.threads : rng.pick(std::vector<int64_t>{2, 2, 3, 4, 4, 8, 16}));
+        threads = static_cast<size_t>(c.args.threads > 0 ? c.args.threads : rng.pick(std::vector<int64_t>{2, 2, 3, 4, 4, 8, 16, rng.integer(2, 16), rng.integer(5, 15)}));
     }
     else
     {
-        threads = static_cast<size_t>(rng.pick(std::vector<int64_t>{1, 1, 1, 2, 2, 3, 4, 5, 8, 16}));
+        threads = static_cast<size_t>(rng.pick(std::vector<int64_t>{1, 1, 1, 2, 2, 3, 4, 5, 8, 16, rng.integer(2, 16), rng.integer(5, 15)}));
     }
 
     auto datasource = shadow::datasource_t{store};
